@@ -250,17 +250,40 @@ fn run<RK: RadioKind>(rk: RK, cx: &Ctx<'_>, buf: &mut [u8]) -> Result<Fetched, D
                 }
                 Via::GetRxResult => {
                     cx.rx_done(&mut world.borrow_mut());
-                    conv(drive_now(world, async { lora.get_rx_result(&pkt, buf).await.map(|(n, _)| n as usize) }))
+                    let mut r = conv(drive_now(world, async { lora.get_rx_result(&pkt, buf).await.map(|(n, _)| n as usize) }));
+                    if c.fault_at.is_some() && matches!(&r, Fetched::Err(e) if e.contains("SPI")) {
+                        // the bus error was transient: the caller re-arms its buffer and fetches the same packet again
+                        for (i, b) in buf.iter_mut().enumerate() {
+                            *b = canary(c.seed, i);
+                        }
+                        world.borrow_mut().begin_call("rx-retry", None);
+                        world.borrow_mut().env.bump("probe.fetch-retried-after-bus-error");
+                        r = conv(drive_now(world, async { lora.get_rx_result(&pkt, buf).await.map(|(n, _)| n as usize) }));
+                    }
+                    r
                 }
                 _ => {
                     cx.rx_done(&mut world.borrow_mut());
                     let rk = lora.verif_radio_kind();
-                    conv(drive_now(world, async {
+                    let mut r = conv(drive_now(world, async {
                         let n = rk.get_rx_payload(&pkt, buf).await?;
                         // the status conversion that follows the read is part of the property
                         let _st = rk.get_rx_packet_status().await?;
                         Ok(n as usize)
-                    }))
+                    }));
+                    if c.fault_at.is_some() && matches!(&r, Fetched::Err(e) if e.contains("SPI")) {
+                        for (i, b) in buf.iter_mut().enumerate() {
+                            *b = canary(c.seed, i);
+                        }
+                        world.borrow_mut().begin_call("rx-retry", None);
+                        world.borrow_mut().env.bump("probe.fetch-retried-after-bus-error");
+                        r = conv(drive_now(world, async {
+                            let n = rk.get_rx_payload(&pkt, buf).await?;
+                            let _st = rk.get_rx_packet_status().await?;
+                            Ok(n as usize)
+                        }));
+                    }
+                    r
                 }
             })
         }
